@@ -17,7 +17,8 @@ RULE = ("(1) exhaustive: every data string of length <=L over {a,A,b,1,space,-} 
         "independent left-to-right reference (occurrences, alnum delimiting, value/type/span, MixedCase truth table); (2) random: "
         "keyword sets of 1-5 keywords incl. punctuation, digits-only, prefixes of one another, keywords equal to the data, bytes "
         ">=0x80, data up to 1 KiB, through find_keywords AND through a registry built by get_keywords() from a generated keyword "
-        "directory. Results compared as multisets of (type,value,label,start,end). distinct_nontrivial = distinct (data, "
+        "directory, also after a scanner used the same searchers in between and after a released buffer of equal length (address "
+        "reuse). Results compared as multisets of (type,value,label,start,end). distinct_nontrivial = distinct (data, "
         "keyword set) pairs with at least one expected hit.")
 ASSUMPTIONS = ["case folding is ASCII-only in both the reference and bytes.lower()"]
 EXPECTED_WALL = {"quick": 30, "thorough": 300}
